@@ -12,7 +12,7 @@
          (1, sin(order*phi), cos(order*phi)):  scipy.optimize.leastsq on residuals that are
        LINEAR in the coefficients.  leastsq itself (MINPACK lmdif, iterative) is NOT modelled:
        its answer is specified as "a coefficient vector satisfying the normal equations"
-       ([normal_eq], a relation), and, separately, computed by Gauss-Jordan elimination over Q
+       ([normal_eq], a relation), and, separately, computed by a fraction-free (Bareiss) inversion of the Gram matrix that is checked over Q
        ([ls_solve]) for the correspondence.  The design matrix is a function  A i j  (sample i,
        column j); the values sin(phi_i), cos(phi_i), sin(2 phi_i), cos(2 phi_i) are INPUTS
        (exact rationals recorded from numpy).  No trigonometric fact is needed for the
@@ -144,7 +144,7 @@ Definition mmul (k : nat) (M G : nat -> nat -> Q) (l j' : nat) : Q := sumu k (fu
 Definition delta (l j : nat) : Q := if Nat.eqb l j then 1 else 0.
 Definition is_identity (k : nat) (P : nat -> nat -> Q) : bool :=
   forallb (fun l => forallb (fun j => Qeq_bool (P l j) (delta l j)) (seq 0 k)) (seq 0 k).
-(* M is a two-sided inverse of G: decided by computation, nothing about gauss_jordan is trusted *)
+(* M is a two-sided inverse of G: decided by computation, nothing about the elimination is trusted *)
 Definition inverse_ok (k : nat) (G M : list (list Q)) : bool :=
   is_identity k (mmul k (Aof M) (Aof G)) && is_identity k (mmul k (Aof G) (Aof M)).
 (* THE RANK CONDITION as a computable predicate: the k x k Gram matrix of the rows has a
@@ -384,7 +384,11 @@ Definition check_corr_case (c : corr_case) : bool :=
   end &&
   cmp (gx m) (gx r) (Qabs' (gx m - gx g)) && cmp (gy m) (gy r) (Qabs' (gy m - gy g)) &&
   (* the angle is compared modulo pi (a value within rounding of 0 or pi may wrap) *)
-  (cmp (gpa m) (gpa r) 1 || (negb exact && (relclose 40 (gpa m + dyQ pi_) (gpa r) 1 || relclose 40 (gpa m) (gpa r + dyQ pi_) 1))) &&
+  (* the binary64 value of (1-eps)^2 - 1 loses up to 2^-53 / |(1-eps)^2 - 1| (cancellation for small eps) and
+     the correction is reduced modulo pi afterwards: the absolute tolerance scales with both *)
+  (let ac := angle_correction (dyQ sma) (dyQ gr) (dyQ h) g in
+   let asc := 1 + Qabs' ac * (1 + 1 / Qabs' ((1 - geps g) * (1 - geps g) - 1)) in
+   cmp (gpa m) (gpa r) asc || (negb exact && (relclose 40 (gpa m + dyQ pi_) (gpa r) asc || relclose 40 (gpa m) (gpa r + dyQ pi_) asc))) &&
   cmp (geps m) (geps r) 1.
 Definition corr_model_out (c : corr_case) :=
   let '(k, h, gr, sma, g, sinpa, cospa, pi_, maxeps, res, exact) := c in
